@@ -24,7 +24,7 @@
         children ([C15_value_ops_keep_structure]; [OccupiedEntry::insert] stores the caller's
         prefix, so for it: same keys, [C15_value_ops_keep_keys]). *)
 From Coq Require Import List NArith ZArith Bool Lia Permutation.
-From PT Require Import Slots Mutate Canon History HistoryExtra.
+From PT Require Import Slots Mutate Canon History HistoryExtra Arena ArenaThm ArenaProps.
 From PT.Properties Require Import Common.
 Import ListNotations.
 
@@ -203,6 +203,19 @@ Proof.
   exact (step_value_skelb pfx V _ _ _ _ _ _ _ kbits okp LAWS _ o (C15_wf_reachable ops Hops) Ho Hv).
 Qed.
 
+(** * The same statement about the ARENA-level transcription of the code (Arena*.v; ArenaProps.v
+      composes the refinement [Rep] with the tree-level theorem).  [areach am]: [am] is reached from
+      the empty arena by a history of arena-level mutator calls with valid prefixes. *)
+Theorem C15_arena (am : amap pfx V) :
+  areach pfx V (peq w) (contains w fl) (is_bit_set w) plen (lcp w fl) pzero okp am ->
+  exists m, Rep pfx V am m /\ Slots.minv pfx V m /\ wf_root pfx V kbits okp (root m) /\ (forall m', Rep pfx V am m' -> m' = m).
+Proof. exact (arena_C15_wf pfx V _ _ _ _ _ _ _ _ _ (laws w fl Hw) am). Qed.
+
+Theorem C15_arena_canonical (am : amap pfx V) :
+  areach_in pfx V (peq w) (contains w fl) (is_bit_set w) plen (lcp w fl) pzero okp (canon2 pfx V) am ->
+  exists m, Rep pfx V am m /\ wf_root pfx V kbits okp (root m) /\ Canon.canonical pfx V (root m).
+Proof. exact (arena_C15_canonical pfx V _ _ _ _ _ _ _ _ _ (laws w fl Hw) am). Qed.
+
 End C15.
 
 (** non-vacuity (w = 8): a canonical history leaving a value-less branch node; its shape equals the
@@ -246,3 +259,5 @@ Print Assumptions C15_shape_determined.
 Print Assumptions C15_remove_reverts_insert.
 Print Assumptions C15_value_ops_keep_structure.
 Print Assumptions C15_value_ops_keep_keys.
+Print Assumptions C15_arena.
+Print Assumptions C15_arena_canonical.
